@@ -255,6 +255,25 @@ class CFG(object):
                 work.append(d)
         return seen
 
+    def reach_incomplete(self, start, events, labels_ok=None):
+        """nodes reachable from start on paths on which no statement of `events` *completes*: an event node may be
+        entered, but only its exceptional out-edges are followed (the statement raised, its effect did not happen)"""
+        events = set(events)
+        seen = set()
+        work = [start]
+        while work:
+            n = work.pop()
+            for d, lab in self.succ[n]:
+                if n in events and lab != 'exc':
+                    continue
+                if labels_ok is not None and not labels_ok(n, d, lab):
+                    continue
+                if d in seen:
+                    continue
+                seen.add(d)
+                work.append(d)
+        return seen
+
     def path(self, start, goal, avoid=(), labels_ok=None):
         """one path (list of node ids) from start to goal avoiding `avoid`, or None"""
         avoid = set(avoid)
